@@ -211,8 +211,10 @@ CLAIMED = {
              "of the real functions against the models (`tf`, `tfchain`); the monitor predicate is evaluated on every observed "
              "output, including transformations that are not modelled.",
         note=_TB + "Not modelled (monitor only): htmlEntityDecode (x/net/html), non-ASCII lowercase/uppercase, md5/sha1 and "
-             "decoders not yet in lean/Coraza/Model/Transformations.lean / UrlDecodeUni.lean (urlDecodeUni is modelled; its "
-             "best-fit table is translated from the Go source on every run).",
+             "decoders not yet in lean/Coraza/Model/Transformations.lean / Transformations2.lean / UrlDecodeUni.lean (modelled there: "
+             "lowercase, uppercase, trim*, removeNulls, replaceNulls, length, hexEncode/Decode, urlEncode/Decode, none, urlDecodeUni "
+             "with its best-fit table translated from the Go source on every run, jsDecode, cmdLine, removeCommentsChar, "
+             "compressWhitespace and removeWhitespace on ASCII input).",
         ref="6/C14", engine="tf,tfchain"),
     "C15": dict(
         text="Lean 4 theorems: each modelled operator equals its declarative predicate for all arguments and inputs (substring/"
